@@ -17,9 +17,12 @@ EXTRA_T1 = list(_c07.T1_FUNCS)
 def run(res, tier, broken):
     ST.run_stop(res, tier, broken, "C01")
     S.run_sched(res, tier, broken, "C01", EXTRA_T1)
+    S.run_native(res, "nat_sched_matrix", "a work unit is run by the stream that schedules its pool (predefined schedulers over 1..4 pools, stacked scheduler)")
 
 
 def replay(res, path):
+    if json.load(open(path)).get("native"):
+        return S.replay_native(json.load(open(path)))
     if "stop" in json.load(open(path)):
         return ST.replay(res, path)
     return S.replay(res, path)
